@@ -66,6 +66,8 @@ fn main() {
     let src_dir = PathBuf::from(&repo).join("entrait_macros/src");
     let lib = src_dir.join("lib.rs");
     println!("cargo:rerun-if-changed={}", lib.display());
+    // a module file may move (`x.rs` -> `x/mod.rs`) without lib.rs changing: re-resolve the paths then
+    println!("cargo:rerun-if-changed={}", src_dir.display());
     let text = fs::read_to_string(&lib).expect("read lib.rs");
 
     let mut out = String::from(SHIM);
